@@ -37,8 +37,8 @@ Put(al, k, v) == IF Has(al, k)
 
 \* ---- static context of a run --------------------------------------------
 \* ctx = [funcs |-> assoc name -> <<params, body>>, obj |-> assoc field -> value,
-\*        host |-> assoc name -> kind]   kind: "log" (returns nothing) | "same" (returns its
-\*        first argument) | <<"val", v>> (returns v)
+\*        host |-> assoc name -> kind]   kind: <<"log">> (returns nothing) | <<"same">> (returns
+\*        its first argument) | <<"val", v>> (returns v)
 FuncsOf(prog) == LET idx == {i \in 1..Len(prog) : prog[i][1] = "func"} IN
                  \* later definitions of the same name replace earlier ones
                  [n \in {prog[i][2] : i \in idx} |->
@@ -158,8 +158,8 @@ CallFn(name, args, s, ctx) ==
   ELSE IF Has(ctx.host, name) THEN
        (LET kind == Get(ctx.host, name)
             s1 == [s EXCEPT !.calls = Append(s.calls, <<name, args>>)] IN
-        IF kind = "log" THEN [v |-> V, s |-> s1]
-        ELSE IF kind = "same" THEN [v |-> IF Len(args) > 0 THEN args[1] ELSE N, s |-> s1]
+        IF kind[1] = "log" THEN [v |-> V, s |-> s1]
+        ELSE IF kind[1] = "same" THEN [v |-> IF Len(args) > 0 THEN args[1] ELSE N, s |-> s1]
         ELSE [v |-> kind[2], s |-> s1])
   ELSE IF name \in DOMAIN ctx.funcs THEN
        (LET f == ctx.funcs[name] params == f[1] body == f[2] IN
